@@ -111,6 +111,9 @@ def run(ctx, report):
                 r_sh.finding(f"{f.short}:self.{e.target}", f"{f.short} stores self.{e.target} on an algorithm object that is a process-wide singleton (created once by register()); "
                              f"read by {readers or 'no other method'} — two threads validating accounts of the same method can see each other's value", e.where,
                              witness={"writer": f.short, "readers": readers})
+            elif e.kind == "default-mutation":
+                r_sh.finding(f"{f.short}:{e.target}", f"{f.short} uses its mutable default argument {e.target!r} as working storage ({e.detail}): the one default object is "
+                            "shared by every call and every thread", e.where)
             elif e.kind == "tainted-mutation":
                 r_al.finding(f"{f.short}:{e.target}", f"{f.short} mutates {e.target!r} ({e.detail}), which aliases the shared registry data", e.where)
             elif e.kind == "param-mutation" and e.target.split(".")[0] in ptaint.get(id(f), ()):
